@@ -25,6 +25,12 @@ pub fn run_c14(a: &Args) {
                 if t.is_reverse() != (last == 'R' || last == 'Y') { st.fail(format!("[C14] {code} is_reverse = {}", t.is_reverse()), hex(&b)); }
                 if t.is_open() != (last == 'X' || last == 'Y') { st.fail(format!("[C14] {code} is_open = {}", t.is_open()), hex(&b)); }
                 if t.is_open() && t.distance_mile().is_some() { st.fail(format!("[C14] open configuration {code} has a lap distance"), hex(&b)); }
+                // the same through the other accessor: both agree on whether there is a distance, and on the distance itself
+                match (t.distance_mile(), t.distance_km()) {
+                    (None, None) => {},
+                    (Some(mi), Some(km)) => { if t.is_open() { st.fail(format!("[C14] open configuration {code} has a lap distance in km"), hex(&b)); } if (km - mi * 1.609_344).abs() > 0.02 { st.fail(format!("[C14] {code}: {mi} miles but {km} km"), hex(&b)); } },
+                    (mi, km) => st.fail(format!("[C14] {code}: distance_mile() = {:?} but distance_km() = {:?}", mi, km), hex(&b)),
+                }
                 if format!("{}", t) != code { st.fail(format!("[C14] {code} prints as {}", t), hex(&b)); }
                 let l = lic_num(&t);
                 let area = code.chars().take(2).collect::<String>();
@@ -73,11 +79,16 @@ pub fn run_c15(a: &Args) {
         let t: Vec<&str> = r.split_whitespace().collect();
         let ok = match t[0] {
             "rlenc" => { let n: usize = t[2].parse().unwrap(); let v = if t[1] == "1" { RaceLaps::Laps(n) } else { RaceLaps::Hours(n) }; let b: u8 = v.into(); let back = RaceLaps::from(b); let good = b == 0 || match (t[1], back) { ("1", RaceLaps::Laps(m)) => m == n || (n >= 100 && n <= 1000 && m == n - n % 10), ("2", RaceLaps::Hours(m)) => m == n, _ => false }; println!("{:?} -> {b} -> {:?}", v, back); good },
-            "dur" => { let ki: usize = t[1].parse().unwrap(); let idx: usize = t[2].parse().unwrap(); let ms: u64 = t[3].parse().unwrap();
+            "dur" => { let ki: usize = t[1].parse().unwrap(); let idx: usize = t[2].parse().unwrap(); let msw: u128 = t[3].parse().unwrap(); let ns: u32 = t.get(4).and_then(|x| x.parse().ok()).unwrap_or(0); let ms: u64 = msw.min(u64::MAX as u128) as u64;
                 let d0 = crate::gen::kinds::default_packets().into_iter().find(|d| format!("{:?}", d).starts_with(crate::gen::layouts::KINDS.get(ki).map(|k| k.name).unwrap_or("?"))).expect("kind");
-                let mut p = d0.clone(); let (off, w, scale, fname) = crate::gen::glue::set_dur(&mut p, idx, Duration::from_millis(ms)).expect("field");
-                let fits = ((ms / scale) as u128) < (1u128 << (8 * w));
-                match encode_p(true, &p) { Enc::Ok(b) => { let wv = (0..w).fold(0u64, |a, i| a | (b[off + i] as u64) << (8 * i)); println!(".{fname} = {ms} ms encodes as {wv} x {scale} ms (fits: {fits})"); fits && wv == ms / scale }, Enc::Err => { println!(".{fname} = {ms} ms is refused (fits: {fits})"); !fits }, Enc::Panic => { println!("panic"); false } } },
+                let mut p = d0.clone(); let (off, w, scale, fname) = crate::gen::glue::set_dur(&mut p, idx, Duration::new((msw / 1000).min(u64::MAX as u128) as u64, (msw % 1000) as u32 * 1_000_000 + ns)).expect("field");
+                let fits = msw / (scale as u128) < (1u128 << (8 * w));
+                match encode_p(true, &p) { Enc::Ok(b) => { let wv = (0..w).fold(0u64, |a, i| a | (b[off + i] as u64) << (8 * i)); println!(".{fname} = {msw} ms + {ns} ns encodes as {wv} x {scale} ms (fits: {fits})"); fits && wv as u128 == msw / scale as u128 }, Enc::Err => { println!(".{fname} = {msw} ms + {ns} ns is refused (fits: {fits})"); !fits }, Enc::Panic => { println!("panic"); false } } },
+            "smallns" => { let subt: u8 = t[1].parse().unwrap(); let ms: u64 = t[2].parse().unwrap(); let ns: u32 = t[3].parse().unwrap();
+                let d = Duration::new(ms / 1000, (ms % 1000) as u32 * 1_000_000 + ns);
+                let st_ = match subt { 1 => SmallType::Ssp(d), 2 => SmallType::Ssg(d), 5 => SmallType::Stp(d), 6 => SmallType::Rtp(d), _ => SmallType::Nli(d) };
+                let scale: u64 = if subt == 7 { 1 } else { 10 }; let fits = ms / scale <= u32::MAX as u64;
+                match encode_p(true, &insim::Packet::Small(Small { subt: st_, ..Default::default() })) { Enc::Ok(b) => { let w = u32::from_le_bytes([b[4], b[5], b[6], b[7]]) as u64; println!("{ms} ms + {ns} ns encodes as {w} x {scale} ms"); fits && w == ms / scale }, Enc::Err => !fits, Enc::Panic => false } },
             "frame" => { let res = roundtrip("C15", t[1] == "C", &unhex(t[2]), None, &mut st); println!("{res}"); st.failures_total == 0 && res == format!("ok:{}", t[2]) },
             "isi" | "obh" | "lap" | "csc" => {
                 let ms: u64 = t[1].parse().unwrap(); let d = Duration::from_millis(ms);
@@ -209,11 +220,12 @@ pub fn run_c15(a: &Args) {
                     let res = roundtrip("C15", compressed, &g, None, &mut st);
                     if res != format!("ok:{}", hex(&g)) { st.fail(format!("[C15] {}.{name}: wire value {v} re-encodes as {res}", k.name), format!("frame {} {}", crate::net::mode_tag(compressed), hex(&g))); }
                 }
-                // thorough: the whole 32-bit range of ONE 32-bit field per run (rotating with the seed; ~3 min on 16 cores), and every 64th
-                // value (2^26 of them, offset by the seed) of each of the others
+                // thorough: every 4th value (2^30 of them, offset by the seed) of ONE 32-bit field per run (rotating with the seed; a
+                // decode + re-encode costs ~2 us, so the full 2^32 range of one field would take ~10 min on 16 cores), and every 64th
+                // value (2^26) of each of the others
                 if a.thorough() && w == 4 && compressed && base_no == 0 {
                     let full = (wide_seen as u64) == a.seed % 16; wide_seen += 1;
-                    let (step, start): (u64, u64) = if full { (1, 0) } else { (64, a.seed % 64) };
+                    let (step, start): (u64, u64) = if full { (4, a.seed % 4) } else { (64, a.seed % 64) };
                     let base = f.clone(); let kname = k.name;
                     let hs: Vec<_> = (0..16u64).map(|t| { let base = base.clone(); std::thread::spawn(move || {
                         let mut bad: Vec<u32> = vec![]; let lo = t << 28; let hi = (t + 1) << 28; let mut g = base.clone();
@@ -223,7 +235,7 @@ pub fn run_c15(a: &Args) {
                             if !ok && bad.len() < 4 { bad.push(v as u32); } v += step; }
                         bad }) }).collect();
                     for h in hs { for v in h.join().unwrap_or_default() { let mut g = base.clone(); g[o..o + 4].copy_from_slice(&v.to_le_bytes()); st.fail(format!("[C15] {kname}.{name}: wire value {v} does not round-trip"), format!("frame C {}", hex(&g))); } }
-                    if full { st.evaluations += 1u64 << 32; st.exhaustive.push(format!("all 2^32 wire values of {kname}.{name}")); }
+                    if full { st.evaluations += 1u64 << 30; st.bump("32-bit time field swept at every 4th value (2^30 values)"); st.notes.push(format!("every 4th of the 2^32 wire values of {kname}.{name} (offset {})", a.seed % 4)); }
                     else { st.evaluations += 1u64 << 26; st.bump("32-bit time fields swept at every 64th value (2^26 values each)"); }
                 }
             }
@@ -245,11 +257,17 @@ pub fn run_c15(a: &Args) {
             let mut vals: Vec<u128> = vec![0, 1, 9, 10, 11, 999, 1000, 59_999, 60_000, 3_599_999, 3_600_000, 86_400_000];
             for q in [top - 1, top, top + 1, 2 * top - 1, 2 * top, 2 * top + 77, 10 * top, 10 * top + 5, 256 * top + 3, 65_536 * top + 1234] { for r in [0u128, 1, scale as u128 - 1] { vals.push(q * scale as u128 + r.min(scale as u128 - 1)); vals.push((q * scale as u128).saturating_sub(1 + r)); } }
             for _ in 0..40 { let q = (rng.next() as u128) % top; vals.push(q * scale as u128 + (rng.below(scale) as u128)); let big = top + (rng.next() as u128 % (1u128 << 40)); vals.push(big * scale as u128 + rng.below(scale) as u128); }
-            for ms in vals { if ms > u64::MAX as u128 { continue; }
-                let mut p = d0.clone(); let _ = crate::gen::glue::set_dur(&mut p, idx, Duration::from_millis(ms as u64));
+            // (milliseconds, extra nanoseconds below one millisecond): the sub-millisecond part must be dropped, never rounded up
+            let mut cases: Vec<(u128, u32)> = vals.iter().map(|v| (*v, 0u32)).collect();
+            for v in [0u128, 9, 10, 40, 199, 289, 1999, (top - 1) * scale as u128, (top - 1) * scale as u128 + scale as u128 - 1, top * scale as u128 - 1] { for ns in [1u32, 499_999, 500_000, 999_999] { cases.push((v, ns)); } }
+            // far beyond the field and beyond 2^64 ms (where 64-bit millisecond arithmetic wraps)
+            for secs in [u64::MAX / 1000 + 1, 18_446_744_073_709_552, u64::MAX / 2, u64::MAX] { cases.push(((secs as u128) * 1000 + 384, 0)); }
+            for (ms, ns) in cases {
+                let d = Duration::new((ms / 1000).min(u64::MAX as u128) as u64, (ms % 1000) as u32 * 1_000_000 + ns);
+                let mut p = d0.clone(); let _ = crate::gen::glue::set_dur(&mut p, idx, d);
                 st.evaluations += 1;
                 let fits = ms / (scale as u128) < top;
-                let id = format!("dur {} {idx} {ms}", crate::gen::layouts::KINDS.iter().position(|k| format!("{:?}", d0).starts_with(k.name)).unwrap_or(999));
+                let id = format!("dur {} {idx} {ms} {ns}", crate::gen::layouts::KINDS.iter().position(|k| format!("{:?}", d0).starts_with(k.name)).unwrap_or(999));
                 for compressed in [true, false] {
                     match encode_p(compressed, &p) {
                         Enc::Ok(b) => {
@@ -264,6 +282,22 @@ pub fn run_c15(a: &Args) {
             }
         } }
         st.notes.push(format!("time fields exercised on the encode side through generated typed setters: {nf}"));
+    }
+    // Small (hand-written writer): the sub-millisecond part is dropped, never rounded up; all five time sub-types
+    for (ms, ns) in [(40u64, 500_000u32), (40, 499_999), (40, 999_999), (9, 500_000), (19, 999_999), (1999, 999_999), (289, 999_992), (0, 999_999), (4_294_967_295, 999_999), (42_949_672_959, 999_999)] {
+        for subt in [1u8, 2, 5, 6, 7] {
+            st.evaluations += 1;
+            let d = Duration::new(ms / 1000, (ms % 1000) as u32 * 1_000_000 + ns);
+            let st_ = match subt { 1 => SmallType::Ssp(d), 2 => SmallType::Ssg(d), 5 => SmallType::Stp(d), 6 => SmallType::Rtp(d), _ => SmallType::Nli(d) };
+            let scale: u64 = if subt == 7 { 1 } else { 10 };
+            let fits = ms / scale <= u32::MAX as u64;
+            let id = format!("smallns {subt} {ms} {ns}");
+            match encode_p(true, &insim::Packet::Small(Small { subt: st_, ..Default::default() })) {
+                Enc::Ok(b) => { let w = u32::from_le_bytes([b[4], b[5], b[6], b[7]]) as u64; if !fits || w != ms / scale { st.fail(format!("[C15] Small sub-type {subt}: {ms} ms + {ns} ns encodes as {w}, floor({ms} / {scale}) is {}", ms / scale), id); } },
+                Enc::Err => if fits { st.fail(format!("[C15] Small sub-type {subt}: {ms} ms + {ns} ns fits but is refused"), id); },
+                Enc::Panic => st.fail(format!("[C15] Small sub-type {subt}: {ms} ms + {ns} ns makes the encoder panic"), id),
+            }
+        }
     }
     // Small encode side beyond the range: refused
     for (ms, subt) in [(42_949_672_950u128, 1u8), (42_949_672_960, 1), (42_949_672_959, 1), (4_294_967_295, 7), (4_294_967_296, 7), (u64::MAX as u128, 2)] {
